@@ -10,6 +10,7 @@ gets the AST, to build values and to drive the reference codec.
 from __future__ import annotations
 
 import copy
+import posixpath
 from dataclasses import dataclass, field, replace
 from typing import Optional, Union as U
 
@@ -514,9 +515,10 @@ def render_tree(pkg: Package, root: str) -> dict:
         base = root + "/" + p.dirname
         if base + "/_package.yml" in files:
             return
+        rel = lambda q: posixpath.relpath(root + "/" + q.dirname, base)      # dirnames may be nested ("archive/v0/pkg")
         files[base + "/_package.yml"] = render_manifest(
-            p, ["../" + i.dirname for i in p.imports],
-            [(l, "../" + v.dirname) for l, v in p.versions] + ([(p.self_version, "../" + p.dirname)] if getattr(p, "self_version", "") else []))
+            p, [rel(i) for i in p.imports],
+            [(l, rel(v)) for l, v in p.versions] + ([(p.self_version, "../" + p.dirname.rsplit("/", 1)[-1])] if getattr(p, "self_version", "") else []))
         for fn, text in render_files(p).items():
             files[base + "/" + fn] = text
         for i in p.imports:
